@@ -39,6 +39,7 @@ type glTarget struct {
 	opaque   map[string]bool // package-level functions kept as parameters
 	drop     map[string]bool // package-level functions whose calls are dropped (logging helpers)
 	listElem string          // value type of the container/list elements this function handles (repo struct name)
+	trace    bool            // also record, in program order, the calls of the opaque functions (they read or write the connections they are given)
 }
 
 var glTargets = []glTarget{
@@ -61,6 +62,7 @@ var glTargets = []glTarget{
 	{pkg: "service", recv: "", name: "MakeCipherEntry", opaque: map[string]bool{"NewServerSaltGenerator": true}},
 	{pkg: "service", recv: "", name: "findAccessKeyUDP", listElem: "CipherEntry", opaque: map[string]bool{"Unpack": true}, drop: map[string]bool{"debugUDP": true}},
 	{pkg: "service", recv: "", name: "drainErrToString"},
+	{pkg: "service", recv: "streamHandler", name: "handleConnection", trace: true, opaque: map[string]bool{"getProxyRequest": true, "proxyConnection": true, "FuncStreamDialer": true, "Copy": true, "absorbProbe": true}},
 	{pkg: "service", recv: "", name: "findEntry", listElem: "CipherEntry", opaque: map[string]bool{"Unpack": true}, drop: map[string]bool{"debugTCP": true}},
 	{pkg: "service/metrics", recv: "measuredConn", name: "Read"},
 	{pkg: "service/metrics", recv: "measuredConn", name: "Write"},
@@ -213,6 +215,8 @@ func (g *golean) leanType(t types.Type, strBytes bool, f *glFn) string {
 	switch {
 	case isNamed(t, "time", "Time"), isNamed(t, "time", "Duration"):
 		return "Int"
+	case isNamed(derefT(t), "github.com/Jigsaw-Code/outline-ss-server/net", "ConnectionError"):
+		return "(Option String)" // a *ConnectionError is seen through its status; nil = no error
 	case isNamed(t, "sync", "Once"):
 		return "Bool"
 	case isNamed(t, "net", "IP"):
@@ -309,6 +313,8 @@ func (g *golean) leanType(t types.Type, strBytes bool, f *glFn) string {
 				g.sorder = append(g.sorder, name)
 			}
 			return name
+		case *types.Signature:
+			return "(Opaque " + leanStr(u.Obj().Pkg().Name()+"."+u.Obj().Name()) + ")" // a function value the code only hands on
 		case *types.Interface:
 			return "(Opaque " + leanStr(u.Obj().Pkg().Name()+"."+u.Obj().Name()) + ")"
 		case *types.Basic, *types.Slice, *types.Map:
@@ -334,7 +340,7 @@ func (g *golean) fieldKept(v *types.Var) bool {
 			return false // a shared object of the repository: calls on it are recorded as effects, it is not part of this value
 		}
 		if _, ok := t.Underlying().(*types.Struct); ok && !isRepoType(t) {
-			return isNamed(t, "github.com/Jigsaw-Code/outline-sdk/transport/shadowsocks", "EncryptionKey") || isNamed(t, "container/list", "List")
+			return isNamed(t, "github.com/Jigsaw-Code/outline-sdk/transport/shadowsocks", "EncryptionKey") || isNamed(t, "container/list", "List") || isNamed(t, "log/slog", "Logger")
 		}
 	}
 	if v.Embedded() {
@@ -462,7 +468,20 @@ func (f *glFn) expr(e ast.Expr) string {
 		}
 		return f.idName(x)
 	case *ast.SelectorExpr:
+		if v, ok := f.p.TypesInfo.Uses[x.Sel].(*types.Var); ok && v.Pkg() != nil && v.Parent() == v.Pkg().Scope() {
+			if lt := f.leanType(v.Type()); strings.HasPrefix(lt, "(Opaque ") {
+				n := lid(v.Pkg().Name() + "_" + v.Name())
+				f.addExtra(n, lt) // a package-level object of another package the function only hands on (io.Discard)
+				return n
+			}
+		}
 		if sel, ok := f.p.TypesInfo.Selections[x]; ok && sel.Kind() == types.FieldVal {
+			if isConnErr(f.typeOf(x.X)) {
+				if x.Sel.Name == "Status" {
+					return "(← " + f.expr(x.X) + ")" // dereferencing a nil *ConnectionError panics
+				}
+				return f.fail(e, "field %s of a ConnectionError (only its status is modelled)", x.Sel.Name)
+			}
 			return f.expr(x.X) + "." + lid(x.Sel.Name)
 		}
 		return f.fail(e, "selector %s", exprString(e))
@@ -631,6 +650,9 @@ func (f *glFn) binary(x *ast.BinaryExpr) string {
 func (f *glFn) composite(x *ast.CompositeLit) string {
 	t := f.typeOf(x)
 	lt := f.leanType(t)
+	if isNamed(t, "time", "Time") && len(x.Elts) == 0 {
+		return "(0 : Int)" // the zero time
+	}
 	if strings.HasPrefix(lt, "(Opaque ") && len(x.Elts) == 0 {
 		return "(⟨0⟩ : " + lt + ")"
 	}
@@ -726,6 +748,13 @@ func recvNamed(fn *types.Func) (pkg, name string) {
 func (f *glFn) call(c *ast.CallExpr, value bool) string {
 	// conversions
 	if tv, ok := f.p.TypesInfo.Types[c.Fun]; ok && tv.IsType() {
+		if _, isLit := c.Args[0].(*ast.FuncLit); isLit {
+			// T(func…): the closure is not translated; the value it makes is a parameter
+			to := f.leanType(tv.Type)
+			n := "closure_" + strings.NewReplacer("(Opaque \"", "", "\")", "", ".", "_").Replace(to)
+			f.addExtra(n, to)
+			return n
+		}
 		from := f.leanType(f.typeOf(c.Args[0]))
 		to := f.leanType(tv.Type)
 		a := f.expr(c.Args[0])
@@ -778,6 +807,21 @@ func (f *glFn) call(c *ast.CallExpr, value bool) string {
 	obj := f.calleeObj(c)
 	fn, _ := obj.(*types.Func)
 	if fn == nil {
+		if fsel, ok := c.Fun.(*ast.SelectorExpr); ok {
+			if sl, ok := f.p.TypesInfo.Selections[fsel]; ok && sl.Kind() == types.FieldVal {
+				if sg, ok := sl.Obj().Type().Underlying().(*types.Signature); ok {
+					// a function stored in a field (h.authenticate): what it does is a parameter of the translation
+					var ats, as []string
+					for i := 0; i < sg.Params().Len(); i++ {
+						ats = append(ats, f.leanType(sg.Params().At(i).Type()))
+						as = append(as, f.expr(c.Args[i]))
+					}
+					pname := lid("field_" + fsel.Sel.Name)
+					f.addExtra(pname, strings.Join(ats, " → ")+" → "+f.resultType(sg))
+					return "(" + pname + " " + strings.Join(as, " ") + ")"
+				}
+			}
+		}
 		// the stubbable clock of the metrics package: `var now = time.Now`
 		if v, ok := obj.(*types.Var); ok && v.Name() == "now" && v.Parent() == v.Pkg().Scope() && len(c.Args) == 0 {
 			if sg, ok := v.Type().(*types.Signature); ok && sg.Results().Len() == 1 && isNamed(sg.Results().At(0).Type(), "time", "Time") {
@@ -927,7 +971,7 @@ func (f *glFn) call(c *ast.CallExpr, value bool) string {
 		}
 	}
 	// io.Copy(dst, src): what it moves is the business of the two ends; a parameter
-	if full == "io.Copy" {
+	if full == "io.Copy" && value {
 		ats := []string{f.leanType(f.typeOf(c.Args[0])), f.leanType(f.typeOf(c.Args[1]))}
 		pname := "io_Copy_" + strings.NewReplacer("(Opaque \"", "", "\")", "", ".", "_").Replace(ats[0]) + "_" + strings.NewReplacer("(Opaque \"", "", "\")", "", ".", "_").Replace(ats[1])
 		f.addExtra(pname, strings.Join(ats, " → ")+" → "+f.resultType(sig))
@@ -953,6 +997,29 @@ func (f *glFn) call(c *ast.CallExpr, value bool) string {
 		}
 	}
 	// --- opaque package-level functions and interface methods: parameters ---
+	if ((rn != "" && sel != nil && f.t.opaque[fn.Name()]) || full == "io.Copy") && !value {
+		// an opaque callee used as a statement: an effect in the function's own log (pointer arguments are recorded as such,
+		// not by the value they point to)
+		var vals []string
+		if rn != "" && sel != nil {
+			if at, ok := f.atoms(f.expr(sel.X), f.typeOf(sel.X)); ok && !isPtrToRepoStruct(f.typeOf(sel.X)) {
+				vals = append(vals, at)
+			}
+		}
+		for _, a := range c.Args {
+			if isPtrToRepoStruct(f.typeOf(a)) {
+				vals = append(vals, "[]")
+				continue
+			}
+			at, ok := f.atoms(f.expr(a), f.typeOf(a))
+			if !ok {
+				return f.fail(c, "effect argument of type %s", f.typeOf(a))
+			}
+			vals = append(vals, at)
+		}
+		f.fnEff = true
+		return "eff__ := eff__ ++ [{ name := " + leanStr(map[bool]string{true: "io.Copy", false: fn.Name()}[full == "io.Copy"]) + ", args := [], vals := [" + strings.Join(vals, ", ") + "] }]"
+	}
 	if rn != "" && sel != nil && f.t.opaque[fn.Name()] && value {
 		ats := []string{f.leanType(f.typeOf(sel.X))}
 		as := []string{f.expr(sel.X)}
@@ -967,7 +1034,7 @@ func (f *glFn) call(c *ast.CallExpr, value bool) string {
 		var ats []string
 		var as []string
 		for i := 0; i < sig.Params().Len(); i++ {
-			ats = append(ats, f.leanType(sig.Params().At(i).Type()))
+			ats = append(ats, f.leanType(f.typeOf(c.Args[i])))
 			as = append(as, f.expr(c.Args[i]))
 		}
 		if len(ats) == 0 {
@@ -1216,9 +1283,13 @@ func (f *glFn) atoms(e string, t types.Type) (string, bool) {
 
 // ---- pointer locals: value semantics with write-back, and a nil flag ----
 
+func isConnErr(t types.Type) bool {
+	return isNamed(derefT(t), "github.com/Jigsaw-Code/outline-ss-server/net", "ConnectionError")
+}
+
 func isPtrToRepoStruct(t types.Type) bool {
 	p, ok := t.(*types.Pointer)
-	if !ok {
+	if !ok || isConnErr(t) {
 		return false
 	}
 	_, isS := p.Elem().Underlying().(*types.Struct)
@@ -1415,8 +1486,67 @@ func (f *glFn) define(id *ast.Ident, rhs string) string {
 	return f.idName(id) + " := " + rhs
 }
 
+// traceCalls: with `trace`, the calls a statement makes to functions that are parameters of the translation (a function
+// stored in a field, an opaque package-level function) are also entered in the function's effect log, before the
+// statement: their order relative to the calls on the interfaces is then part of the translated behaviour.
+func (f *glFn) traceCalls(s ast.Stmt, ind int) {
+	if !f.t.trace {
+		return
+	}
+	var visit func(n ast.Node) bool
+	visit = func(n ast.Node) bool {
+		switch x := n.(type) {
+		case *ast.BlockStmt, *ast.FuncLit:
+			return false
+		case *ast.IfStmt:
+			if x.Init != nil {
+				ast.Inspect(x.Init, visit)
+			}
+			ast.Inspect(x.Cond, visit)
+			return false
+		case *ast.RangeStmt:
+			ast.Inspect(x.X, visit)
+			return false
+		case *ast.ForStmt:
+			return false
+		case *ast.CallExpr:
+			name := ""
+			if fn, ok := f.calleeObj(x).(*types.Func); ok {
+				if _, rn := recvNamed(fn); rn == "" && f.t.opaque[fn.Name()] && fn.Pkg() != nil && isRepoPkg(fn.Pkg().Path()) {
+					name = fn.Name()
+				}
+			} else if fsel, ok := x.Fun.(*ast.SelectorExpr); ok {
+				if sl, ok := f.p.TypesInfo.Selections[fsel]; ok && sl.Kind() == types.FieldVal {
+					if _, ok := sl.Obj().Type().Underlying().(*types.Signature); ok {
+						name = fsel.Sel.Name
+					}
+				}
+			}
+			if name != "" {
+				var vals []string
+				for _, a := range x.Args {
+					if at, ok := f.atoms(f.expr(a), f.typeOf(a)); ok && !isPtrToRepoStruct(f.typeOf(a)) {
+						vals = append(vals, at)
+					} else {
+						vals = append(vals, "[]")
+					}
+				}
+				f.fnEff = true
+				f.emit(ind, "eff__ := eff__ ++ [{ name := "+leanStr("call "+name)+", args := [], vals := ["+strings.Join(vals, ", ")+"] }]")
+			}
+		}
+		return true
+	}
+	ast.Inspect(s, visit)
+}
+
+func isRepoPkg(path string) bool {
+	return strings.HasPrefix(path, "github.com/Jigsaw-Code/outline-ss-server")
+}
+
 func (f *glFn) stmt(s ast.Stmt, ind int) {
 	f.derefGuards(s, ind)
+	f.traceCalls(s, ind)
 	switch x := s.(type) {
 	case *ast.BlockStmt:
 		f.block(x.List, ind)
